@@ -18,3 +18,12 @@ package redis
 //@   loop 2:
 //@     invariant bounds: i <= k && k <= len(key)
 //@     invariant no_close_before: digest.SpecFirstIndex(key, '}', i) == digest.SpecFirstIndex(key, '}', k)
+
+// SelectDB on the abstract target connection:
+//   curDb         the database the connection is on
+//   replayFailed  failed replay steps (a failed database switch counts as one, see syncer contracts)
+//@ func SelectDB(c, db) (err)
+//@   trusted abstract target connection
+//@   modifies curDb, replayFailed
+//@   ensures switched: err == nil ==> curDb == db
+//@   ensures counted: (err != nil ==> replayFailed == old(replayFailed) + 1) && (err == nil ==> replayFailed == old(replayFailed))
